@@ -31,7 +31,8 @@ __CPROVER_assigns()
 __CPROVER_ensures(__CPROVER_is_fresh(__CPROVER_return_value, sizeof(Token)) && ID(__CPROVER_return_value->context_) == ID(c));
 """
 assumed_contracts = {"xc_new_Context_array": "operator new[] + default construction (fresh array, every element the empty context)",
-                     "xc_new_Token": "new Token(context)"}
+                     "xc_new_Token": "new Token(context)",
+                     "xc_memcpy_n": "std::memcpy with a symbolic length (C standard): destination bytes equal the source bytes, nothing else written"}
 
 
 def configure(cfg):
@@ -186,3 +187,267 @@ def refute_search(mod, proof, violations, ix, workdir, seed):
 
 
 refuters = {p.name: refute_search for p in proofs}
+
+
+# ---------------------------------------------------------------------------------------------
+# Context values (api/include/opentelemetry/context/context.h): "A Context never changes after creation: SetValue returns a new context in
+# which the new keys shadow older bindings while every previously obtained context keeps answering exactly as before"
+TU_CTX = ("tu_context_values", '#include "opentelemetry/context/context.h"\n')
+CTX_PRE = r"""
+size_t g_k; size_t g_w; unsigned long g_deleted;
+static void xc_havoc_ghosts(void) { size_t a; g_k = a; }
+#define XC_MAXKEY 4096UL
+/* ContextValue (nostd::variant of 8 alternatives): which alternative + its bits; copying a value copies both (reference counts of the
+   shared_ptr alternatives are not modelled) */
+typedef struct xc_ctxval { int tag; unsigned long bits; } xc_ctxval;
+#define VEQ(a, b) ((a).tag == (b).tag && (a).bits == (b).bits)
+"""
+CTX_POST = r"""
+/* std::memcpy / std::memcmp with a symbolic length: assumed contracts (C standard), pointwise through the ghost index g_k / witness g_w */
+void *xc_memcpy_n(void *dst, const void *src, size_t n)
+__CPROVER_requires(n <= XC_MAXKEY && __CPROVER_r_ok(src, n) && __CPROVER_w_ok(dst, n))
+__CPROVER_assigns(__CPROVER_object_upto(dst, n))
+__CPROVER_ensures(g_k < n ==> ((const char *)dst)[g_k] == ((const char *)src)[g_k]);
+int xc_memcmp_n(const void *a, const void *b, size_t n)
+__CPROVER_requires(n <= XC_MAXKEY && __CPROVER_r_ok(a, n) && __CPROVER_r_ok(b, n))
+__CPROVER_assigns(g_w)
+__CPROVER_ensures(__CPROVER_return_value == 0 ==> (g_k < n ==> ((const char *)a)[g_k] == ((const char *)b)[g_k]))
+__CPROVER_ensures(__CPROVER_return_value != 0 ==> (g_w < n && ((const char *)a)[g_w] != ((const char *)b)[g_w]));
+"""
+
+
+def _ctxval_type(em, base, targs, name):
+    if base in ("nostd::variant", "variant", "absl::otel_v1::variant") and targs and len(targs) == 8:
+        return common.CT("xc_ctxval")
+    if base in ("nostd::shared_ptr", "shared_ptr") and targs and targs[0].strip().endswith("DataList"):
+        inner = em._ctype(targs[0])
+        return common.CT(inner.base, inner.ptr + 1)
+    return None
+
+
+def _holds_mono(em, node, recv, args):
+    src = common._node_source(em, node) if hasattr(common, "_node_source") else ""
+    if "monostate" not in src:
+        raise common.ExtractionError("holds_alternative of an alternative other than monostate: %s" % src[:80])
+    return "(%s.tag == 0)" % em.pexpr_post(args[0])
+
+
+def _configure_ctx(cfg):
+    cfg.value_classes |= {"string_view", "Context"}
+    cfg.src_file = R.core.REPO + "/api/include/opentelemetry/context/context.h"
+    cfg.type_handlers.insert(0, _ctxval_type)
+    cfg.ext["new"] = common._kv_new
+    cfg.ctor_ext["nostd::shared_ptr"] = lambda em, node, args: (em.expr(args[0]) if args else "NULL")
+    cfg.ext["memcpy"] = "xc_memcpy_n"
+    def _vctor(em, node, args):
+        real = [a for a in args if a.get("kind") != "CXXDefaultArgExpr"]
+        if not real:
+            return "((xc_ctxval){0, 0})"       # ContextValue{}: monostate
+        if len(real) == 1 and em.ctype(real[0]["type"]).base == "xc_ctxval":
+            return em.expr(real[0])
+        raise common.ExtractionError("ContextValue construction from %s" % real[0]["type"].get("qualType"))
+    for k in ("absl::otel_v1::variant", "nostd::variant", "variant"):
+        cfg.ctor_ext[k] = _vctor
+        cfg.ext_methods[k + "::operator="] = lambda em, recv, args, n: "%s = %s" % (recv, em.expr(args[0]))
+    cfg.ext["holds_alternative"] = _holds_mono
+    SP = "nostd::shared_ptr<context::Context::DataList>::"
+    unp = lambda r: (r["node"] if isinstance(r, dict) and r.get("xc_is_ptr") else r)
+    cfg.ext_q[SP + "operator="] = lambda em, node, recv, args: "%s = %s" % (em.expr(unp(recv)), em.expr(args[0]))
+    cfg.ext_q[SP + "operator->"] = lambda em, node, recv, args: em.expr(unp(recv))
+    cfg.ext_q[SP + "get"] = lambda em, node, recv, args: em.expr(unp(recv))
+    cfg.ext_q[SP + "operator*"] = lambda em, node, recv, args: "(*%s)" % em.expr(unp(recv))
+    cfg.ext_q["nostd::operator!="] = lambda em, node, recv, args: "(%s != %s)" % (em.expr(args[0]), em.expr(args[1]))
+    cfg.ext_q["nostd::operator=="] = lambda em, node, recv, args: "(%s == %s)" % (em.expr(args[0]), em.expr(args[1]))
+    cfg.ext["memcmp"] = "xc_memcmp_n"
+
+
+
+def _configure_ctx_plain(cfg):
+    _configure_ctx(cfg)
+    cfg.ext["memcpy"] = "memcpy"       # CBMC's own bodies, fully unwound (bounded harnesses only)
+    cfg.ext["memcmp"] = "memcmp"
+    cfg.seq_handlers = dict(getattr(cfg, "seq_handlers", {}))
+    cfg.seq_handlers["XcPairs"] = lambda em, seq, targs: ("(%s).items" % seq, "(%s).count" % seq)
+    cfg.seq_handlers["context::XcPairs"] = cfg.seq_handlers["XcPairs"]
+
+
+KEYOK = "(%(k)s.length_ <= XC_MAXKEY && __CPROVER_is_fresh(%(k)s.data_, %(k)s.length_))"
+contracts["Context_SetValue"] = {"pre":
+    "__CPROVER_requires(__CPROVER_is_fresh(self, sizeof(*self)) && " + KEYOK % {"k": "key"} + ")\n"
+    # immutability, for every existing context and list (whatever its shape): nothing that exists before the call is written
+    "__CPROVER_assigns()\n"
+    "__CPROVER_ensures(__CPROVER_is_fresh(__CPROVER_return_value.head_, sizeof(DataList)))\n"
+    "__CPROVER_ensures(__CPROVER_return_value.head_->key_length_ == key.length_ && __CPROVER_is_fresh(__CPROVER_return_value.head_->key_, key.length_))\n"
+    "__CPROVER_ensures(g_k < key.length_ ==> __CPROVER_return_value.head_->key_[g_k] == key.data_[g_k])\n"
+    "__CPROVER_ensures(VEQ(__CPROVER_return_value.head_->value_, value))\n"
+    # the new binding is placed in front of (shadows) the unchanged old list
+    "__CPROVER_ensures(__CPROVER_return_value.head_->next_ == __CPROVER_old(self->head_) && self->head_ == __CPROVER_old(self->head_))\n"}
+
+contracts["DataList_dtor"] = {"pre":
+    "__CPROVER_requires(__CPROVER_is_fresh(self, sizeof(*self)) && self->key_length_ <= XC_MAXKEY && (self->key_ == NULL || __CPROVER_is_fresh(self->key_, self->key_length_)))\n"
+    "__CPROVER_requires(self->next_ == NULL || __CPROVER_is_fresh(self->next_, sizeof(DataList)))\n"
+    # frame: nothing but the node's own key buffer is released, and nothing that survives is written (in particular not the following nodes,
+    # which other contexts may share); the release of the next_ reference is the shared_ptr's business (not extracted)
+    "__CPROVER_assigns(g_deleted)\n__CPROVER_frees(self->key_)\n"
+    "__CPROVER_ensures(self->next_ == __CPROVER_old(self->next_))\n"}
+
+# bounded stand-ins for the list walks: lists of at most 3 nodes, keys of at most 2 bytes (everything inlined, CBMC's memcmp/memcpy)
+CTX_SPEC = r"""
+#define KB(n, i) ((n)->key_[i])
+#define MATCH(n, q) ((n)->key_length_ == (q).length_ && ((q).length_ < 1 || KB(n, 0) == (q).data_[0]) && ((q).length_ < 2 || KB(n, 1) == (q).data_[1]))
+#define MONO(v) ((v).tag == 0)
+/* a well-formed ContextValue: one of the 8 alternatives; monostate carries no payload */
+#define WFV(v) ((v).tag >= 0 && (v).tag <= 7 && ((v).tag != 0 || (v).bits == 0))
+static xc_ctxval spec_get3(DataList *n0, string_view q)
+{
+  xc_ctxval none = {0, 0};
+  if (n0 == NULL) return none;
+  if (MATCH(n0, q)) return n0->value_;
+  DataList *n1 = n0->next_;
+  if (n1 == NULL) return none;
+  if (MATCH(n1, q)) return n1->value_;
+  DataList *n2 = n1->next_;
+  if (n2 == NULL) return none;
+  if (MATCH(n2, q)) return n2->value_;
+  DataList *n3 = n2->next_;
+  if (n3 == NULL) return none;
+  if (MATCH(n3, q)) return n3->value_;
+  DataList *n4 = n3->next_;
+  if (n4 == NULL) return none;
+  if (MATCH(n4, q)) return n4->value_;
+  __CPROVER_assert(n4->next_ == NULL, "spec_get3: list longer than the bound of this harness");
+  return none;
+}
+static DataList g_n[3]; static char g_kb[3][2];
+static Context mk_ctx(size_t depth)
+{
+  Context c;
+  for (size_t i = 0; i < 3; i++)
+  {
+    size_t l; xc_ctxval v; char a, b;
+    __CPROVER_assume(l <= 2 && WFV(v));
+    g_kb[i][0] = a; g_kb[i][1] = b;
+    g_n[i].key_ = g_kb[i]; g_n[i].key_length_ = l; g_n[i].value_ = v; g_n[i].next_ = (i + 1 < depth) ? &g_n[i + 1] : NULL;
+  }
+  c.head_ = depth ? &g_n[0] : NULL;
+  return c;
+}
+"""
+H_GET = CTX_SPEC + r"""
+void h_Context_GetValue_bounded(void)
+{
+  size_t depth, ql; char qb[2]; xc_havoc_ghosts();
+  __CPROVER_assume(depth <= 3 && ql <= 2);
+  Context c = mk_ctx(depth);
+  string_view q = {.data_ = qb, .length_ = ql};
+  xc_ctxval want = spec_get3(c.head_, q);
+  xc_ctxval got = Context_GetValue(c, q);
+  __CPROVER_assert(VEQ(got, want), "GetValue returns the most recent binding of the key (first node from the head whose key equals it), else the empty value");
+  bool has = Context_HasKey(c, q);
+  __CPROVER_assert(has == !MONO(want), "HasKey is true exactly when GetValue yields a value");
+  __CPROVER_assert(0, "XC_CANARY end of harness reachable");
+}
+"""
+H_SHADOW = CTX_SPEC + r"""
+void h_Context_SetValue_shadow_bounded(void)
+{
+  size_t depth, ql, kl, k2l; char qb[2], kb[2], k2b[2]; xc_ctxval v, v2; xc_havoc_ghosts();
+  __CPROVER_assume(depth <= 3 && ql <= 2 && kl <= 2 && k2l <= 2 && WFV(v) && WFV(v2));
+  Context c = mk_ctx(depth);
+  string_view q = {.data_ = qb, .length_ = ql}, k = {.data_ = kb, .length_ = kl}, k2 = {.data_ = k2b, .length_ = k2l};
+  DataList snap[3]; char snapk[3][2];
+  for (size_t i = 0; i < 3; i++) { snap[i] = g_n[i]; snapk[i][0] = g_kb[i][0]; snapk[i][1] = g_kb[i][1]; }
+  xc_ctxval before = spec_get3(c.head_, q);
+  Context c2 = Context_SetValue(&c, k, v);
+  xc_ctxval got2 = Context_GetValue(c2, q);
+  int same = (ql == kl && (ql < 1 || qb[0] == kb[0]) && (ql < 2 || qb[1] == kb[1]));
+  __CPROVER_assert(!same || VEQ(got2, v), "the new context answers the key just set with the new value (it shadows older bindings)");
+  __CPROVER_assert(same || VEQ(got2, before), "every other key is answered as by the old context");
+  xc_ctxval got = Context_GetValue(c, q);
+  __CPROVER_assert(VEQ(got, before) && c.head_ == (depth ? &g_n[0] : NULL), "the old context answers exactly as before");
+  for (size_t i = 0; i < 3; i++)
+    __CPROVER_assert(snap[i].key_ == g_n[i].key_ && snap[i].key_length_ == g_n[i].key_length_ && snap[i].next_ == g_n[i].next_ && VEQ(snap[i].value_, g_n[i].value_)
+                     && snapk[i][0] == g_kb[i][0] && snapk[i][1] == g_kb[i][1], "no node of the old context is modified");
+  /* a second context derived from c2: c2 keeps answering as before */
+  Context c3 = Context_SetValue(&c2, k2, v2);
+  xc_ctxval again2 = Context_GetValue(c2, q);
+  __CPROVER_assert(VEQ(again2, got2), "a context from which another one was derived keeps answering exactly as before");
+  int same2 = (ql == k2l && (ql < 1 || qb[0] == k2b[0]) && (ql < 2 || qb[1] == k2b[1]));
+  xc_ctxval got3 = Context_GetValue(c3, q);
+  __CPROVER_assert(VEQ(got3, same2 ? v2 : got2), "the most recent binding wins");
+  __CPROVER_assert(0, "XC_CANARY end of harness reachable");
+}
+"""
+H_SETVALUES = CTX_SPEC + r"""
+void h_Context_SetValues_bounded(void)
+{
+  size_t depth, ql, cnt; char qb[2]; XcPair items[2]; char ib[2][2]; xc_havoc_ghosts();
+  __CPROVER_assume(depth <= 2 && ql <= 2 && cnt <= 2);
+  Context c = mk_ctx(depth);
+  string_view q = {.data_ = qb, .length_ = ql};
+  for (size_t i = 0; i < 2; i++) { size_t l; __CPROVER_assume(l <= 2 && WFV(items[i].second)); items[i].first.data_ = ib[i]; items[i].first.length_ = l; }
+  XcPairs values = {.items = items, .count = cnt};
+  #define QEQ(sv) (ql == (sv).length_ && (ql < 1 || qb[0] == (sv).data_[0]) && (ql < 2 || qb[1] == (sv).data_[1]))
+  /* a map has distinct keys */
+  __CPROVER_assume(!(cnt == 2 && items[0].first.length_ == items[1].first.length_ && (items[0].first.length_ < 1 || ib[0][0] == ib[1][0]) && (items[0].first.length_ < 2 || ib[0][1] == ib[1][1])));
+  xc_ctxval before = spec_get3(c.head_, q);
+  Context c2 = Context_XcPairs(&c, &values);
+  xc_ctxval got2 = Context_GetValue(c2, q);
+  xc_ctxval want = (cnt >= 1 && QEQ(items[0].first)) ? items[0].second : (cnt >= 2 && QEQ(items[1].first)) ? items[1].second : before;
+  __CPROVER_assert(VEQ(got2, want), "SetValues: the new keys shadow older bindings, every other key (also when no new key is given) is answered as by the old context");
+  xc_ctxval got = Context_GetValue(c, q);
+  __CPROVER_assert(VEQ(got, before), "the old context answers exactly as before");
+  __CPROVER_assert(0, "XC_CANARY end of harness reachable");
+}
+"""
+TU_CTX2 = ("tu_context_values2", '#include "opentelemetry/context/context.h"\n'
+           'namespace opentelemetry { OPENTELEMETRY_BEGIN_NAMESPACE namespace context {\n' if False else
+           '#include "opentelemetry/context/context.h"\n'
+           'OPENTELEMETRY_BEGIN_NAMESPACE\nnamespace context {\n'
+           '/* stand-in for the container type T of Context::SetValues<T>: what the template needs is iteration over (first, second) pairs */\n'
+           'struct XcPair { nostd::string_view first; ContextValue second; };\n'
+           'struct XcPairs { XcPair *items; size_t count; XcPair *begin() const { return items; } XcPair *end() const { return items + count; } };\n'
+           'template Context Context::SetValues<XcPairs>(XcPairs &);\n'
+           '}\nOPENTELEMETRY_END_NAMESPACE\n')
+
+proofs_ctx = [
+    Proof("Context_SetValue", [("Context::SetValue", 2)], enforce="Context_SetValue", replace=["xc_memcpy_n"], configure=_configure_ctx,
+          desc="SetValue writes nothing that existed before (immutability for every list shape) and returns a fresh head node holding the key bytes and the value, linked in front of the old list"),
+    Proof("DataList_dtor", [("DataList::~DataList", 0)], enforce="DataList_dtor", configure=_configure_ctx,
+          desc="destroying a node releases its own key buffer and writes to no other node (a context that shares the rest of the list keeps answering as before)"),
+    Proof("Context_GetValue_bounded", [("Context::GetValue", 1), ("Context::HasKey", 1)], harness=H_GET, loop_contracts=False, unwind=6, level="bounded",
+          configure=_configure_ctx_plain, bound_note="lists of at most 3 nodes, keys of at most 2 bytes, every value alternative; everything inlined",
+          desc="GetValue/HasKey against 'first node from the head with an equal key'"),
+    Proof("Context_SetValue_shadow_bounded", [("Context::GetValue", 1), ("Context::SetValue", 2)], harness=H_SHADOW, loop_contracts=False, unwind=6, level="bounded",
+          configure=_configure_ctx_plain, bound_note="old list of at most 3 nodes, keys of at most 2 bytes, two successive SetValue calls; everything inlined",
+          desc="shadowing, most recent binding, old contexts answer as before, no old node modified"),
+    Proof("Context_SetValues_bounded", [("Context::GetValue", 1), ("Context::SetValues<context::XcPairs>", 1)], harness=H_SETVALUES, loop_contracts=False, unwind=6, level="bounded",
+          configure=_configure_ctx_plain, bound_note="old list of at most 2 nodes, 0..2 new (distinct) keys of at most 2 bytes; the container type T is a sequence of (first, second) pairs",
+          desc="SetValues<T>: new keys shadow, other keys and the old context unchanged, including the empty container"),
+]
+proofs_ctx[-1].tu = TU_CTX2
+for _p in proofs_ctx:
+    _p.tu = getattr(_p, "tu", None) or TU_CTX
+    _p.pre_c = CTX_PRE
+    _p.post_struct_c = CTX_POST
+    _p.spec_headers = ()
+    _p.force_records = ()
+proofs += proofs_ctx
+
+
+def refute_ctx(mod, proof, violations, ix, workdir, seed):
+    """directed native search on the real Context: every sequence of up to 3 SetValue / SetValues(std::map) steps, every context probed after every step"""
+    import os, re as _re, subprocess
+    binpath = R.build_native(DRIVER[0], [os.path.join(R.core.HERE, "replay", s) for s in DRIVER[1]], ["-O1"])
+    full = subprocess.run([binpath, "ctxsearch"], stdout=subprocess.PIPE, stderr=subprocess.STDOUT, text=True, timeout=600).stdout
+    m = _re.findall(r"^FOUND (.*)$", full, _re.M)
+    if not m:
+        return None
+    args = m[-1].split()
+    r = R.native_check(DRIVER[0], DRIVER[1], args, ["-O1"])
+    r["input"] = {"driver_args": args, "meaning": "ctx <steps>: s:<key>:<int> = SetValue, m:<k>=<int>,... = SetValues(std::map) on the latest context; all contexts probed with keys '', a, b, ab", "found_by": "directed native search (refute mode)"}
+    return r if r["reproduced"] else None
+
+
+for _p in proofs_ctx:
+    refuters[_p.name] = refute_ctx
